@@ -2,11 +2,25 @@
 EXTENDS CString, Judge
 VARIABLES l, sync
 TInit == JInit /\ l = 1 /\ sync = TRUE
+\* memcpy / memmove / memset inside an object of more than 4 GiB (zero-filled except for a few marked bytes): positions, distances and
+\* counts beyond 2^31 and 2^32 as pairs <<high, low 16 bits>>; the bytes read back at the probed positions must be those the definition gives
+PLt(a, b) == a[1] < b[1] \/ (a[1] = b[1] /\ a[2] < b[2])
+PLe(a, b) == ~PLt(b, a)
+PAdd(a, b) == LET lw == a[2] + b[2] IN <<a[1] + b[1] + (lw \div 65536), lw % 65536>>
+PSub(a, b) == LET lw == a[2] - b[2] IN IF lw >= 0 THEN <<a[1] - b[1], lw>> ELSE <<a[1] - b[1] - 1, lw + 65536>>
+OldAt(ev, q) == IF \E i \in 1..Len(ev.marks) : <<ev.marks[i][1], ev.marks[i][2]>> = q
+                THEN ev.marks[CHOOSE i \in 1..Len(ev.marks) : <<ev.marks[i][1], ev.marks[i][2]>> = q /\ \A j \in (i + 1)..Len(ev.marks) : <<ev.marks[j][1], ev.marks[j][2]>> # q][3]
+                ELSE 0
+MemBigExp(ev) ==
+   LET inside(q) == PLe(ev.d, q) /\ PLt(q, PAdd(ev.d, ev.n))
+       want(q) == IF ~inside(q) THEN OldAt(ev, q) ELSE IF ev.fn = "memset" THEN ev.c % 256 ELSE OldAt(ev, PAdd(PSub(q, ev.d), ev.s))
+   IN [probes |-> [i \in 1..Len(ev.probes) |-> <<ev.probes[i][1], ev.probes[i][2], want(<<ev.probes[i][1], ev.probes[i][2]>>)>>], ret |-> ev.d]
 TNext ==
    /\ l <= NTrace /\ l' = l + 1 /\ Consumed(l) /\ sync' = TRUE
    /\ LET ev == TraceLog[l] IN
       IF ev.e = "Reset" THEN TRUE
       ELSE IF ev.e = "Fault" THEN Flag(l, <<"fault">>, [kind |-> ev.kind, where |-> ev.where])
+      ELSE IF ev.e = "MemBig" THEN (LET exp == MemBigExp(ev) mm == Mismatch(ev, exp) IN IF mm # {} THEN Flag(l, SetToSeq(mm), exp) ELSE TRUE)
       \* a negative n stands for a bound near SIZE_MAX ("as much as there is"): legal for the functions that stop at the
       \* terminator or, for memchr, at the first match (C11 7.24.5.1: reads sequentially and stops at the match)
       ELSE LET nn == IF ev.n >= 0 THEN ev.n ELSE IF ev.fn = "memchr" THEN Len(ev.mem) - ev.a ELSE 1000000
